@@ -11,8 +11,8 @@ Byte == 0..255
 B(s, p) == s[p + 1]                       \* byte at 0-based offset p
 Slice(s, p, q) == SubSeq(s, p + 1, q)     \* bytes at offsets p .. q-1   (Go: s[p:q])
 
-Min(a, b) == IF a < b THEN a ELSE b
-Max(a, b) == IF a > b THEN a ELSE b
+Min2(a, b) == IF a < b THEN a ELSE b
+Max2(a, b) == IF a > b THEN a ELSE b
 
 IsLowerB(b) == b >= 97 /\ b <= 122
 IsUpperB(b) == b >= 65 /\ b <= 90
